@@ -3,7 +3,7 @@
 Require Extraction.
 Require Import ExtrOcamlBasic.
 From Coq Require Import NArith.
-From CB Require Import Common.Codec Chain.ChainSchemas Gen.ChainSchemas Chain.ChainSchemasFull.
+From CB Require Import Common.Codec Chain.ChainSchemas Gen.ChainSchemas Chain.ChainSchemasFull Chain.ChainSchemasAll Gen.ManualImpls Chain.GenTie Chain.ManualTie.
 Extraction "c05_model.ml" dec enc wt alloc cap used gcmp glt key_of eval_pred dec_le enc_le bytes_ok
-  schema_wf min_size chain_schema_table gen_schema_table full_schema_table payload_modelled_tags update_payload_alts
+  schema_wf min_size chain_schema_table gen_schema_table full_schema_table all_schema_table manual_schema_table payload_modelled_tags update_payload_alts
   N.add N.mul N.div N.modulo N.gcd N.compare N.eqb N.leb N.ltb N.of_nat N.to_nat N.pow.
